@@ -1,1 +1,3 @@
 import DracoProofs.Varint
+import DracoProofs.Wrap
+import DracoProofs.Octahedron
